@@ -116,7 +116,27 @@ fn check_delivery(prop: &str, sc: &Scenario, out: &RunOut, v: &mut Verdict) {
             last.insert((d.1, c), r);
         }
     }
-    let _ = sc;
+    // with a single receiver the requests of a connection arrive without gaps: a later one
+    // handed out while an earlier one is still undelivered is out of wire order
+    if sc.receivers.len() == 1 {
+        let mut by_conn: std::collections::BTreeMap<usize, Vec<usize>> = Default::default();
+        for d in &deliv {
+            if let Some((c, r)) = super::c01::split_id(&d.0) {
+                by_conn.entry(c).or_default().push(r);
+            }
+        }
+        for (c, rs) in by_conn {
+            for (pos, r) in rs.iter().enumerate() {
+                if *r != pos && !v.violations.iter().any(|x| x.clause.ends_with("wire_order")) {
+                    v.violations.push(Violation {
+                        clause: format!("{}.wire_order", prop),
+                        signature: "one receiver saw requests of one connection out of wire order".into(),
+                        detail: format!("the only receiver was handed c{}r{} as request number {} of connection {} (delivery order {:?})", c, r, pos, c, rs),
+                    });
+                }
+            }
+        }
+    }
 }
 
 fn receivers_blocked_in_receive(s: &crate::engine::Snapshot) -> usize {
@@ -243,6 +263,9 @@ fn lost_signature(sc: &Scenario) -> String {
 impl Campaign for C17c {
     fn id(&self) -> &'static str {
         "C17"
+    }
+    fn extra_assumptions(&self) -> Vec<String> {
+        vec!["duration clauses are evaluated in strict virtual time only (computation takes zero time, so 'plus scheduling latency' is zero); '[about T' is read as T - 1 ms, 'twice its timeout' as 2T".into()]
     }
     fn rule(&self) -> &'static str {
         "seeded scenarios: u in 0..4 unblock calls issued at instants before/while/after receivers block, p requests from 0-2 connections, 1-4 receivers with generated mixes of recv / recv_timeout / iterator (sub-campaign A, exact token accounting) plus try_recv (sub-campaign B), sub-campaign C with u = 0 for the lower time bound; strict virtual time for the duration clauses, racy time and spurious wake-ups for the accounting clauses; non-trivial = at least one unblock was issued while a receiver was inside a receive call; distinct = interleaving fingerprint"
